@@ -7,6 +7,8 @@ import (
 	"sync"
 	"testing"
 
+	sdk "github.com/cosmos/cosmos-sdk/types"
+
 	routingtypes "github.com/bianjieai/tibc-go/modules/tibc/core/26-routing/types"
 
 	"verif/model"
@@ -79,7 +81,7 @@ func TestC12(t *testing.T) {
 	rec := mon.New("C12", "exploration",
 		"random rule lists (1-4 rules) over the identifier alphabet with emphasis on + [ ] - . # < >, malformed rules, and triples that are equal to / regex-near / unrelated to a rule; "+
 			"SetRoutingRules and Authenticate run on a real keeper over a branched context of a real chain and are compared with the field-wise reference; distinct = distinct (rule list, triple) pairs")
-	rec.Require("set-accepted", "set-rejected", "auth-true", "auth-false", "via-msg")
+	rec.Require("reverted-rule-changes", "committed-rule-changes", "set-accepted", "set-rejected", "auth-true", "auth-false", "via-msg")
 	seed := mon.Seed()
 	nCases := mon.Scale(60_000, 1_200_000)
 	workers := 16
@@ -178,6 +180,60 @@ func TestC12(t *testing.T) {
 				}
 				if !r.OK() && len(r.Diff) != 0 {
 					rec.Violate("rejected-rules-changed-state", nil, r.Log, nil)
+				}
+			}
+			// committed and reverted rule changes in a row: Authenticate on the committed state follows the stored rules
+			// only (a change made inside a transaction that fails later never took place)
+			var stored []string
+			validSet := func() []string {
+				for {
+					rs := []string{genRule(rng), genRule(rng)}
+					if rng.Intn(3) == 0 {
+						rs = append(rs, "*,*,*")
+					}
+					if model.RulesValid(rs) {
+						return rs
+					}
+				}
+			}
+			for i := 0; i < mon.Scale(60, 600)/workers+2; i++ {
+				rules := validSet()
+				msg := &routingtypes.MsgSetRoutingRules{Title: "t", Description: "d", Rules: rules, Authority: c.GovAddr}
+				reverted := rng.Intn(2) == 0 && i > 0
+				if reverted {
+					r := c.Exec(func(ctx sdk.Context) error {
+						if _, err := c.App.MsgServiceRouter().Handler(msg)(ctx, msg); err != nil {
+							return err
+						}
+						return fmt.Errorf("a later message of the same transaction fails")
+					})
+					if len(r.Diff) != 0 {
+						rec.Violate("rejected-rules-changed-state", nil, "reverted rule change left a diff", nil)
+					}
+					rec.Count("reverted-rule-changes", 1)
+				} else if r := c.GovExec(msg); r.OK() {
+					stored = rules
+					rec.Count("committed-rule-changes", 1)
+				}
+				for j := 0; j < 8; j++ {
+					src := rules
+					if j%2 == 1 && stored != nil {
+						src = stored
+					}
+					f := strings.Split(src[rng.Intn(len(src))], ",")
+					tr := [3]string{f[0], f[1], f[2]}
+					for x := range tr {
+						if tr[x] == "*" || rng.Intn(4) == 0 {
+							tr[x] = genField(rng)
+						}
+					}
+					got := k.Authenticate(c.Ctx(), tr[0], tr[1], tr[2])
+					exp := model.Authorised(stored, tr[0], tr[1], tr[2])
+					rec.Judge("auth-after-change", reverted, strings.Join(stored, ";"), tr)
+					if got != exp {
+						rec.Violate("authenticate-differs-from-stored-rules", map[string]string{"after": map[bool]string{true: "reverted-change", false: "committed-change"}[reverted], "got": fmt.Sprint(got)},
+							fmt.Sprintf("stored rules %q, last attempted %q (reverted=%v), triple %q: Authenticate=%v, field-wise match against the stored rules=%v", stored, rules, reverted, tr, got, exp), nil)
+					}
 				}
 			}
 		}(wk)
